@@ -41,6 +41,15 @@ CLAIMED = {
         'technique': 'contract-based deductive verification (Verus) of extracted real code',
         'design_ref': 'DESIGN.md 5/C09',
     },
+    'C10': {
+        'text': 'Deductive proof (Verus) on the verbatim bodies of Unifiable::recreate_variables (all arms, including the list arm that rebuilds through make_linked_list), recreate_vars_terms, recreate_vars_goals, '
+                'Goal::, Operator::, BuiltInPredicate:: and Rule::recreate_variables: the result has the same shape as the input (same atoms, numbers, functors, goal kinds, list spine, per-node counts and tail markers; the empty list stays the empty list), '
+                'every variable of the result carries the id recorded for its name in the map (one id per name, across head and body), the map only grows (no name is renumbered), and all ids are usable (non-zero). '
+                'Freshness of the ids themselves comes from next_id(), whose counter contract is proved by a complete Kani harness; the composition of the two is stated as an assumption.',
+        'note': "Trusted: obeys_key_model::<String>() for HashMap<String,_> (T2), next_id's contract in Verus (assumed there, proved by Kani), T1, T4, T5. Not covered: get_rule/make_query glue, the fallback_id restore in the solver, termination of the recursion.",
+        'technique': 'contract-based deductive verification (Verus) of extracted real code + Kani harness for the id counter',
+        'design_ref': 'DESIGN.md 5/C10',
+    },
     'C13': {
         'text': 'Deductive proof (Verus): unify carries the postcondition post_function - when one operand is a built-in function term the result satisfies the whole clause set (upost) of unifying '
                 "the function's value with the other operand, on either side and for function/function pairs; unify_sfunction is proved against the same clause set in unit functions.",
